@@ -515,7 +515,8 @@ def clean_base(g, max_clauses=2, p_alias=0.15):
     raise Infra("could not generate a clean base query")
 
 
-NEAR_GROUPS = [[32, 33, 34], [35, 36, 37, 38], [26, 27, 39], [40, 41], [9, 10, 30, 31], [6, 7, 8, 21], [28, 29, 14]]
+NEAR_GROUPS = [[32, 33, 34], [35, 36, 37, 38], [26, 27, 39], [40, 41], [9, 10, 30, 31], [6, 7, 8, 21], [28, 29, 14],
+               [42, 26, 27, 28], [43, 2, 3, 20]]    # anchors in 2525 (UnixNano wraps) among anchors of the usual range
 
 
 def broad_base(g):
@@ -623,6 +624,25 @@ def alias_some(g, sel, outnames, group, p=0.2):
     return sel, outnames, group
 
 
+def shadow_select(g, names):
+    """project a subset of the pattern bindings and give some of them, as outer alias, the NAME of a binding that is
+    not projected: `SELECT ?o AS ?s, ?p` - the output column ?s then holds the value of ?o, and ORDER BY / HAVING
+    on ?s mean the output column, not the pattern binding.  Returns (sel, outnames)."""
+    k = g.rng.randint(1, len(names) - 1)
+    proj = g.rng.sample(names, k)
+    rest = [n for n in names if n not in proj]
+    sel, outnames = [], []
+    for b_ in proj:
+        if rest and g.rng.random() < 0.6:
+            al = rest.pop(g.rng.randrange(len(rest)))
+            sel.append("%s AS %s" % (b_, al))
+            outnames.append(al)
+        else:
+            sel.append(b_)
+            outnames.append(b_)
+    return sel, outnames
+
+
 class Batch:
     """collects driver cases; after run() results are looked up by handle"""
 
@@ -719,6 +739,8 @@ def check_group(v, tier, d):
             spec.append({"op": "key", "i": inputs.index(k) + 1})
         for j, (op, x) in enumerate(aggs):
             al = "?g%d" % j
+            if sum(1 for a in aggs if a[1] == x) == 1 and g.rng.random() < 0.2:
+                al = x    # the aggregate is named like the binding it aggregates (`SUM(?v) AS ?v`)
             fn = {"count": "COUNT(%s)", "countd": "COUNT(DISTINCT %s)", "sum": "SUM(%s)"}[op] % x
             sel.append("%s AS %s" % (fn, al))
             outnames.append(al)
@@ -783,11 +805,25 @@ def check_order(v, tier, d):
             sel = [k, "COUNT(%s) AS ?n" % x]
             outnames = [k, "?n"]
             group = [k]
+        elif len(names) >= 3 and g.rng.random() < 0.15:
+            # two grouping keys, listed in SELECT in another order than in GROUP BY (the reduce step sorts by one of
+            # the two lists, ORDER BY must sort by its own)
+            k1, k2, x = g.rng.sample(names, 3)
+            cols = [(k1, k1), (k2, k2), ("COUNT(%s) AS ?n" % x, "?n")]
+            g.rng.shuffle(cols)
+            sel, outnames = [c[0] for c in cols], [c[1] for c in cols]
+            group = [k1, k2]
+        elif len(names) >= 2 and g.rng.random() < 0.12:
+            sel, outnames = shadow_select(g, names)
+        grouped2 = bool(group) and len(group) == 2
         sel, outnames, group = alias_some(g, sel, outnames, group)
         nkeys = g.rng.choice([0, 1, 1, 1, 2, 2, 3])
         order = []
         for _k in range(nkeys):
             order.append((g.rng.choice(outnames), g.rng.random() < 0.4))
+        if grouped2 and g.rng.random() < 0.6:
+            # ORDER BY a prefix of the GROUP BY list, mostly ascending
+            order = [(x, g.rng.random() < 0.15) for x in group[:g.rng.choice([1, 2, 2])]]
         # consistent directions for repeated keys (the parser rejects contradictions)
         seen = {}
         order = [(x, seen.setdefault(x, dsc)) for x, dsc in order]
@@ -945,7 +981,10 @@ def check_having(v, tier, d):
         if len(names) >= 2 and g.rng.random() < 0.25:  # HAVING over aggregate outputs
             k = g.rng.choice(names)
             x = g.rng.choice([y for y in names if y != k])
-            sel, outnames, group = [k, "COUNT(%s) AS ?n" % x], [k, "?n"], [k]
+            an = x if g.rng.random() < 0.35 else "?n"   # the aggregate may be named like the binding it aggregates
+            sel, outnames, group = [k, "COUNT(%s) AS %s" % (x, an)], [k, an], [k]
+        elif len(names) >= 2 and g.rng.random() < 0.2:
+            sel, outnames = shadow_select(g, names)
         sel, outnames, group = alias_some(g, sel, outnames, group)
         kw = {"group": group} if group else {}
         bases.append((base, sel, outnames, kw, b1.add(base["graphs"], sel_text(base, sel, **kw))))
